@@ -8,12 +8,14 @@
   correspondence case): every rendering of every tree parses back to exactly that tree.  Associativity, relative
   precedence, `in` = flipped `contains`, non-chaining and "parentheses only group" are instances.
 
-  Fuel: the model's parser is fuel-indexed (structural recursion); the theorems hold for every sufficiently large
-  fuel (`Ev`).  That the fuel `parseFuel` used by `parseToks` is large enough is not proved here: the driver
-  re-parses every correspondence case with more fuel and reports any difference (see DESIGN.md).
+  Fuel: the model's parser is fuel-indexed (structural recursion).  `Lemmas/Fuel.lean` proves that the fuel
+  `parseFuel T = 14 * (|T| + 2)` used by the executable `parseToks` is sufficient for every token list (one more unit
+  of fuel never changes any result from there on), so "for every sufficiently large fuel" and "for `parseToks`" are
+  the same statement (`fuel_is_sufficient`, `parsesTo_iff_parseToks`, `parseToks_iff_derived`).
 -/
 import RevalModel.Lemmas.RoundTrip
 import RevalModel.Lemmas.ParseComplete
+import RevalModel.Lemmas.Fuel
 
 namespace Reval.C07
 open Reval.G
@@ -45,6 +47,34 @@ theorem parseToks_is_derived (o : Oracle) (e : Expr) (T : List Tok) (h : parseTo
     unfold parseToks at h
     split at h <;> first | exact (by simp_all) | cases h
   exact ⟨parse_sound h', parse_render (parse_sound h')⟩
+
+/-- **the fuel is sufficient**: for every token list, every fuel from `parseFuel T` on gives the same result — tree,
+    rejection, or declined literal — as `parseFuel T` itself -/
+theorem fuel_is_sufficient (o : Oracle) (T : List Tok) (f : Nat) (h : parseFuel T ≤ f) :
+    pIf o f T = pIf o (parseFuel T) T := pIf_fuel_enough o T f h
+
+theorem parseToks_ok_iff (o : Oracle) (e : Expr) (T : List Tok) :
+    parseToks o T = .ok e [] ↔ pIf o (parseFuel T) T = .ok e [] := by
+  unfold parseToks
+  constructor
+  · intro h; split at h <;> first | exact (by simp_all) | cases h
+  · intro h; rw [h]
+
+/-- "parses to `e` at every sufficiently large fuel" is "the executable parser returns `e`" -/
+theorem parsesTo_iff_parseToks (o : Oracle) (e : Expr) (T : List Tok) : ParsesTo o T e ↔ parseToks o T = .ok e [] := by
+  rw [parseToks_ok_iff]; exact eventually_iff_parseFuel o T _
+
+/-- **the executable parser accepts a token sequence exactly when the table grammar derives it, and returns the tree
+    of that (unique) derivation** — no fuel in the statement -/
+theorem parseToks_iff_derived (o : Oracle) (e : Expr) (T : List Tok) : parseToks o T = .ok e [] ↔ R o 0 e T := by
+  rw [← parsesTo_iff_parseToks]
+  constructor
+  · intro ⟨f0, h⟩; exact parse_sound (h f0 (Nat.le_refl _))
+  · exact parse_render
+
+/-- a token list that no tree renders is not accepted: whatever `parseToks` answers, it is not a tree -/
+theorem underivable_is_not_accepted (o : Oracle) (T : List Tok) (h : ∀ e, ¬ R o 0 e T) (e : Expr) :
+    parseToks o T ≠ .ok e [] := fun hp => h e ((parseToks_iff_derived o e T).1 hp)
 
 /-- **unique derivation**: a token list renders at most one tree -/
 theorem derivation_unique (o : Oracle) (e1 e2 : Expr) (T : List Tok)
